@@ -36,6 +36,10 @@ def preload(prop):
     scoresim._install()
 
 
+def reset_state():
+    scoresim.reset_state()
+
+
 def gen_plan(prop, run_seed, tier):
     F = Forks(run_seed)
     w, s = F.fork("workload"), F.fork("schedule")
